@@ -422,6 +422,57 @@ def stage_oracle(ctx: Ctx, progs, tracer):
     ctx.extra['refusals'] = dict(sorted(refusals.items()))
 
 
+def stage_fstring_values(ctx: Ctx):
+    """deterministic: every element of JoinedStr.values (literal parts and replacement fields) copied out of f-strings with every prefix / quote style, on one line and over
+    several, nested in blocks: the tree read from is untouched, the piece parses on its own to itself, and holds the same structure as the element"""
+    import fst
+    from lib.oracle import reparse_diffs, cmp_ast
+    bodies = ['{a}\\d', 'x{a!r:>{w}}y', '{a}{b}', '{ {1, 2} }z', '{a + \nb}', 'p{q}\n  r{s:{t}.{u}}', '{a=}', '{a = !r}']
+    for pre in ('f', 'F', 'rf', 'fr', 'Rf', 'fR'):
+        for q in ("'", '"', "'''", '"""'):
+            for body in bodies:
+                if '\n' in body and len(q) == 1 and '{a + \nb}' != body:
+                    continue
+                lit = pre + q + body + q
+                for wrap in ('{}', 'x = {}', 'if c:\n    y = g({}, 1)'):
+                    src = wrap.format(lit) + '\n'
+                    try:
+                        ref = ast.parse(src)
+                        root = fst.FST(src, 'exec')
+                    except SyntaxError:
+                        continue
+                    js = next((g for g in root.walk(True) if isinstance(g.a, ast.JoinedStr) and not isinstance(g.parent.a, ast.FormattedValue)), None)
+                    if js is None:
+                        continue
+                    before = (root.src, ast.dump(root.a, include_attributes=True))
+                    for i, v in enumerate(js.a.values):
+                        rec = {'src': src, 'index': i, 'element': type(v).__name__}
+                        debug = isinstance(v, ast.FormattedValue) and i > 0 and isinstance(js.a.values[i - 1], ast.Constant) and str(js.a.values[i - 1].value).rstrip().endswith('=')
+                        try:
+                            piece = js.values[i].copy()
+                        except Exception as e:
+                            ctx.dist['fstring-values:refused'] = ctx.dist.get('fstring-values:refused', 0) + 1
+                            continue
+                        ctx.tick(('fstring-values', src, i), 'copy:fstring-value')
+                        if (root.src, ast.dump(root.a, include_attributes=True)) != before:
+                            ctx.violation('copy-changed-tree|fstring-value', 'copy changed the tree it read from', rec)
+                            break
+                        d = None
+                        try:
+                            piece.verify()
+                            d = reparse_diffs(piece)
+                        except Exception as e:
+                            d = [f'verify raised {e!r}'[:200]]
+                        if d:
+                            ctx.violation('piece-not-standalone|fstring-value' + ('|self-documenting-field' if debug else ''), 'the returned tree does not parse on its own to itself',
+                                          {**rec, 'piece': piece.src, 'diffs': d})
+                            continue
+                        got = piece.a.values[-1] if isinstance(piece.a, ast.JoinedStr) and len(piece.a.values) == (2 if debug else 1) and isinstance(v, ast.FormattedValue) else piece.a
+                        dd = cmp_ast(got, v, positions=False, ctx=False)
+                        if dd:
+                            ctx.violation('piece-struct|fstring-value', 'the returned tree is not structurally equal to the original element', {**rec, 'piece': piece.src, 'diffs': dd})
+
+
 def run(ctx: Ctx):
     ctx.rule = ('per corpus program: random node / list field (real and virtual) / slice bounds / trivia, pars, norm, docstr options: copy(), get(), get_slice(): source and '
                 'ast.dump(with positions) of the tree read from unchanged; piece verifies and re-parses to itself; piece structurally equals the original sub-tree / element '
@@ -436,6 +487,7 @@ def run(ctx: Ctx):
     tracer = DedentTracer(budget=ctx.scale(300, 3000), rng=ctx.rng)
     with tracer:
         run_guarded(ctx, stage_oracle, progs, tracer)
+    run_guarded(ctx, stage_fstring_values)
     ctx.extra['traced_calls'] = dict(tracer.calls)
     try:
         failed = coq_eval_bools('C07_trace', HDR, tracer.terms, shard=60)
